@@ -95,9 +95,46 @@ MUTANTS = [
     ("unsafe-bounds-unvalidated", "C15", "R-UNSAFE-BOUNDS", "with_bounds", "crates/parser/src/string_slice.rs",
      "        if self.data.get(new_bounds.clone()).is_some() {\n            try_from_range(&new_bounds)",
      "        if new_bounds.end <= self.data.len() {\n            try_from_range(&new_bounds)"),
-    ("arc-cfg-branch-in-vm", "C19", "R-BUILD-DIFF", "next_register", "crates/runtime/src/vm.rs",
-     "    fn next_register(&self) -> u8 {\n        (self.registers.len() - self.register_base) as u8\n    }",
-     "    fn next_register(&self) -> u8 {\n        if cfg!(feature = \"arc\") {\n            return self.registers.len().saturating_sub(self.register_base) as u8;\n        }\n        (self.registers.len() - self.register_base) as u8\n    }"),
+    ("arc-cfg-branch-in-vm", "C19", "R-BUILD-DIFF", "register_index", "crates/runtime/src/vm.rs",
+     "    fn register_index(&self, register: u8) -> usize {\n        self.register_base + register as usize\n    }",
+     "    fn register_index(&self, register: u8) -> usize {\n        if cfg!(feature = \"arc\") {\n            return self.register_base.saturating_add(register as usize);\n        }\n        self.register_base + register as usize\n    }"),
+    # ---- R-NARROW / R-VM-REGS
+    ("narrow-match-guard-gone", "C05", "R-NARROW", "compile_match_arm_patterns", "crates/bytecode/src/compiler.rs",
+     "        if arm_patterns.len() > i8::MAX as usize {\n            return self.error(ErrorKind::TooManyMatchPatterns(arm_patterns.len()));\n        }\n",
+     ""),
+    ("narrow-match-guard-too-wide", "C05", "R-NARROW", "compile_match_arm_patterns", "crates/bytecode/src/compiler.rs",
+     "        if arm_patterns.len() > i8::MAX as usize {",
+     "        if arm_patterns.len() > u8::MAX as usize {"),
+    ("narrow-nested-args-guard-gone", "C05", "R-NARROW", "compile_unpack_nested_args_of_tuple", "crates/bytecode/src/compiler.rs",
+     "                if nested_args.len() > i8::MAX as usize {\n                    return self.error(ErrorKind::FunctionPropertyLimit {\n                        property: \"nested args\".into(),\n                        amount: nested_args.len(),\n                    });\n                }\n",
+     ""),
+    ("narrow-multi-assign-limit-255", "C05", "R-NARROW", "compile_multi_assign", "crates/bytecode/src/compiler.rs",
+     "        if rhs_is_temp_tuple && targets.len() > i8::MAX as usize + 1 {",
+     "        if rhs_is_temp_tuple && targets.len() > u8::MAX as usize {"),
+    ("narrow-frame-new-cast", "C05", "R-NARROW", "Frame", "crates/bytecode/src/frame.rs",
+     "        let Ok(temporary_base) = u8::try_from(temporary_base) else {\n            return Err(FrameError::LocalRegisterOverflow);\n        };",
+     "        let temporary_base = temporary_base as u8;"),
+    ("narrow-push-register-guard-gone", "C05", "R-NARROW", "Frame", "crates/bytecode/src/frame.rs",
+     "        if new_register == u8::MAX {\n            Err(FrameError::StackOverflow)\n        } else {",
+     "        if self.register_stack.len() > 1000 {\n            Err(FrameError::StackOverflow)\n        } else {"),
+    ("narrow-captures-guard-gone", "C05", "R-NARROW", "compile_function", "crates/bytecode/src/compiler.rs",
+     "        if optional_args.len() + captures.len() > u8::MAX as usize {",
+     "        if captures.len() > usize::MAX / 2 {"),
+    ("narrow-new-caller-of-compile_frame", "C05", "R-NARROW", "compile_frame", "crates/bytecode/src/compiler.rs",
+     "    fn compile_frame(&mut self, params: FrameParameters, ctx: CompileNodeContext) -> Result<()> {",
+     "    #[allow(dead_code)]\n    fn compile_frame_again(&mut self, params: FrameParameters, ctx: CompileNodeContext) -> Result<()> {\n        self.compile_frame(params, ctx)\n    }\n\n    fn compile_frame(&mut self, params: FrameParameters, ctx: CompileNodeContext) -> Result<()> {"),
+    ("narrow-chunks-guard-gone", "C06", "R-NARROW", "compile_make_sequence", "crates/bytecode/src/compiler.rs",
+     "                    if max_batch_size == 0 {\n                        return self.error(FrameError::StackOverflow);\n                    }\n",
+     ""),
+    ("narrow-parser-smallint-range", "C05", "R-NARROW", "consume_number", "crates/parser/src/parser.rs",
+     "            if u8::try_from(n).is_ok() {",
+     "            if i16::try_from(n).is_ok() && n >= 0 {"),
+    ("vm-regs-unchecked-add", "C06", "R-VM-REGS", "run_unary_op", "crates/runtime/src/vm.rs",
+     "        let [result_register, value_register] = self.next_registers()?;",
+     "        let result_register = self.new_frame_base()?;\n        let value_register = result_register + 1;"),
+    ("vm-regs-as-u8", "C06", "R-VM-REGS", "new_frame_base", "crates/runtime/src/vm.rs",
+     "        u8::try_from(self.registers.len() - self.register_base)\n            .map_err(|_| \"Overflow of the current frame's register stack\".into())",
+     "        Ok((self.registers.len() - self.register_base) as u8)"),
     ("atomic-check-then-act", "C19", "R-ATOMIC", "list::pop", "crates/runtime/src/core_lib/list.rs",
      None, None),
     ("arith-unguarded-add", "C06", "R-ARITH", "expanded", "crates/runtime/src/core_lib/range.rs",
